@@ -183,7 +183,13 @@ def check_race(case, r, obs, expect_success=True):
                 want = full_count(leaf)
                 for ci in range(leaf["clients"]):
                     qs = groups.get((leaf["name"], ci), [])
-                    if want is not None and len(qs) == want:
+                    if not qs:
+                        continue
+                    # a client has finished when it has run all its iterations, or when its time period has elapsed
+                    done = (want is not None and len(qs) == want) or (
+                        want is None and qs[-1]["t_exit"] >= qs[0]["t_enter"] + (leaf.get("warmup_time_period") or 0) + leaf["time_period"] - 1e-6
+                    )
+                    if done:
                         t = qs[-1]["t_exit"]
                         t_star = t if t_star is None else min(t_star, t)
             if t_star is None:
